@@ -61,13 +61,57 @@ class EventLog:
         return ev
 
 
+# Argument-write sanitizer: every probe digests the NumPy arrays reachable from its arguments before invoking and again
+# after the return; a callee that wrote into an operand it was handed (an in-place `+=` on a NumPy-backed block, a scratch
+# buffer that is really the caller's array) is recorded here and turned into a violation of the running case by the worker.
+# jax arrays are immutable and skipped; methods that exist to mutate their object are exempt for `self`.
+MUTATIONS = []
+MUTATORS = {"append", "__setitem__", "__init__"}
+
+
+def _np_leaves(x, depth=0, out=None):
+    out = [] if out is None else out
+    if depth > 4 or x is None:
+        return out
+    if isinstance(x, np.ndarray):
+        if x.size and x.size <= 2_000_000 and x.dtype.kind in "biufc":
+            out.append(x)
+    elif isinstance(x, (tuple, list)):
+        for v in x:
+            _np_leaves(v, depth + 1, out)
+    elif isinstance(x, dict):
+        for v in x.values():
+            _np_leaves(v, depth + 1, out)
+    elif hasattr(x, "data") and type(x).__module__.startswith("ginjax"):
+        _np_leaves(x.data, depth + 1, out)
+    return out
+
+
+def _digest(x):
+    import zlib
+
+    return [(a, zlib.crc32(np.ascontiguousarray(a).tobytes())) for a in _np_leaves(x)]
+
+
+def _check_unwritten(pre, callee):
+    import zlib
+
+    for a, h in pre:
+        if zlib.crc32(np.ascontiguousarray(a).tobytes()) != h:
+            MUTATIONS.append({"callee": callee, "shape": list(a.shape), "dtype": str(a.dtype)})
+            return
+
+
 def wrap_function(orig, callee: str, log: EventLog, on_return=None):
     """Forwarding recorder: call event before invoking, return event after."""
 
     def recorder(*a, **kw):
         traced = any_tracer(a, kw)
         log.add(kind="call", callee=callee, traced=traced)
+        pre = _digest((a, kw))
         out = orig(*a, **kw)
+        if pre:
+            _check_unwritten(pre, callee)
         traced = traced or any_tracer(out)
         ev = log.add(kind="return", callee=callee, traced=traced, args=None if traced else a, kwargs=None if traced else kw, out=None if traced else out)
         if on_return is not None and not traced:
@@ -106,7 +150,10 @@ def wrap_method(cls, name: str, callee: str, log: EventLog, on_return=None):
     def method(self, *a, **kw):
         traced = any_tracer(self, a, kw)
         log.add(kind="call", callee=callee, traced=traced)
+        pre = _digest((a, kw) if name in MUTATORS else (self, a, kw))
         out = orig(self, *a, **kw)
+        if pre:
+            _check_unwritten(pre, callee)
         traced = traced or any_tracer(out)
         ev = log.add(kind="return", callee=callee, traced=traced, obj=None if traced else self, args=None if traced else a, kwargs=None if traced else kw, out=None if traced else out)
         if on_return is not None and not traced:
